@@ -11,7 +11,7 @@ if [ "${1:-}" = "--tier" ]; then TIER=$2; shift 2; fi
 BINONLY=
 if [ "${1:-}" = "--bin-only" ]; then BINONLY=$2; shift 2; fi
 ID=$$
-WT=/tmp/mut_wt_$ID; WS=/tmp/mut_ws_$ID; TG=/tmp/mut_tg
+WT=/tmp/mut_wt_$ID; WS=/tmp/mut_ws_$ID; TG=${MUT_TG:-/tmp/mut_tg}
 cleanup() { git -C /repo worktree remove --force $WT 2>/dev/null; rm -rf $WT $WS /tmp/mut_ev_$ID /tmp/vh_mutrel_$ID; }
 trap cleanup EXIT
 git -C /repo worktree add -q --detach $WT HEAD || exit 2
